@@ -55,6 +55,8 @@ func cmdCheck(args []string) int {
 	tier := fs.String("tier", "quick", "quick|thorough")
 	root := fs.String("verif", "/verif", "verif directory")
 	extra := fs.String("extra", "", "JSON file with results of bounded stand-ins to merge into the evidence")
+	outdirFlag := fs.String("outdir", "", "scratch directory (default <verif>/out/<prop>)")
+	noEvidence := fs.Bool("noevidence", false, "do not write the evidence file (self-tests on scratch copies)")
 	_ = fs.Parse(args)
 	t0 := time.Now()
 	seed := 0
@@ -72,6 +74,9 @@ func cmdCheck(args []string) int {
 	var known []KnownFinding
 	_ = readJSON(filepath.Join(*root, "known_findings.json"), &known)
 	outDir := filepath.Join(*root, "out", *prop)
+	if *outdirFlag != "" {
+		outDir = *outdirFlag
+	}
 	_ = os.RemoveAll(outDir)
 	_ = os.MkdirAll(filepath.Join(outDir, "replays"), 0o755)
 
@@ -307,8 +312,10 @@ func cmdCheck(args []string) int {
 		"goroutines, channels and select are not modelled (sequential reasoning per function; see DESIGN.md 2.7, 2.9)",
 		"library functions without a spec return unconstrained values and only change memory reachable from their slice/pointer arguments")
 	b, _ := json.MarshalIndent(ev, "", " ")
-	_ = os.MkdirAll(filepath.Join(*root, "evidence"), 0o755)
-	_ = os.WriteFile(filepath.Join(*root, "evidence", *prop+".json"), b, 0o644)
+	if !*noEvidence {
+		_ = os.MkdirAll(filepath.Join(*root, "evidence"), 0o755)
+		_ = os.WriteFile(filepath.Join(*root, "evidence", *prop+".json"), b, 0o644)
+	}
 
 	fmt.Printf("property %s: %d obligations, %d discharged, %d cover checks, %d known findings, %d violations, %.1fs\n",
 		*prop, total, discharged, covers, nKnown, len(viols), time.Since(t0).Seconds())
